@@ -81,8 +81,43 @@ class GuardExtractor:
         return out
 
     # ---------------- conditions
+    def _variant_flag(self, l):
+        """`matches!(X, Some(_))` / `matches!(X, None)` materialise the pattern test as a bool: `_l = true` in the block a two-way
+        discriminant switch on X (Option / Result) enters for one variant, `_l = false` on the other side."""
+        ds = self.b.defs.get(l, [])
+        tb = [d[2] for d in ds if d[0] == 'st' and d[1]['k'] == 'use' and d[1]['o']['k'] == 'const' and str(d[1]['o']['v'].get('v')) == '1']
+        fb = [d[2] for d in ds if d[0] == 'st' and d[1]['k'] == 'use' and d[1]['o']['k'] == 'const' and str(d[1]['o']['v'].get('v')) == '0']
+        if len(tb) != 1 or len(tb) + len(fb) != len(ds) or not fb:
+            return None
+        T = tb[0]
+        for bi in self.b.preds(T):
+            t = self.b.B[bi]['term']
+            if t['k'] != 'switch' or t['d']['k'] not in ('copy', 'move') or t['d']['pl']['p']:
+                continue
+            for d in self.b.defs.get(t['d']['pl']['l'], []):
+                if d[0] != 'st' or d[1]['k'] != 'discr':
+                    continue
+                m = re.match(r'^&*(?:mut )?(?:std|core)::(option::Option|result::Result)<', d[1].get('ty', ''))
+                if not m:
+                    continue
+                vals = [str(v) for v, tgt in t['ts'] if tgt == T]
+                if not vals and t['o'] == T and len(t['ts']) == 1:
+                    vals = ['1' if str(t['ts'][0][0]) == '0' else '0']
+                if len(vals) != 1 or vals[0] not in ('0', '1'):
+                    continue
+                is_opt = 'Option' in m.group(1)
+                x = self.o.op_str({'k': 'copy', 'pl': d[1]['pl']})
+                a = ('Option::is_some(%s)' if is_opt else 'Result::is_ok(%s)') % x
+                positive = (vals[0] == '1') == is_opt
+                return ('truth' if positive else 'not', a, '')
+        return None
+
     def cond_of_local(self, l, depth=0):
         ds = self.b.defs.get(l, [])
+        if len(ds) > 1:
+            vf = self._variant_flag(l)
+            if vf:
+                return vf
         if len(ds) != 1 or depth > 6:
             return ('truth', self.o.local_str(l), '')
         d = ds[0]
